@@ -394,7 +394,8 @@ def to_worklist(ctx) -> None:
     fv = ctx.fv(f)
     selfn = f.params[0]
     # the map source column -> [(target column, volumes)] collects every serial instruction
-    maps = [n for n in fv.cfg.nodes if n.kind == "stmt" and isinstance(n.ast, ast.Assign) and isinstance(n.ast.targets[0], ast.Name) and "serial" in n.ast.targets[0].id]
+    maps = [n for n in fv.cfg.nodes if n.kind == "stmt" and ((isinstance(n.ast, ast.Assign) and isinstance(n.ast.targets[0], ast.Name) and "serial" in n.ast.targets[0].id)
+                                                            or (isinstance(n.ast, ast.AnnAssign) and n.ast.value is not None and isinstance(n.ast.target, ast.Name) and "serial" in n.ast.target.id))]
     if len(maps) > 1:
         # the map may be created under one name and handed on under another (helper result): keep the creating definition
         maps = [n for n in maps if not isinstance(n.ast.value, ast.Name)] or maps
@@ -418,10 +419,20 @@ def to_worklist(ctx) -> None:
     if len(maps) != 1:
         ctx.rep.inconclusive(rule, f"{f.qualname}/serial-map", f"serial-dilution map not found ({len(maps)})")
         return
-    mname = maps[0].ast.targets[0].id
+    mname = maps[0].ast.targets[0].id if isinstance(maps[0].ast, ast.Assign) else maps[0].ast.target.id
     mv = maps[0].ast.value
     is_dd = isinstance(mv, ast.Call) and call_fname(mv) == "defaultdict" and mv.args and is_name(mv.args[0], "list")
     apps = [cs for cs in fv.calls() if isinstance(cs.call.func, ast.Attribute) and cs.call.func.attr == "append" and isinstance(cs.call.func.value, ast.Subscript) and is_name(cs.call.func.value.value, mname)]
+    key_of = {id(cs): cs.call.func.value.slice for cs in apps}
+    if not apps and ((isinstance(mv, ast.Dict) and not mv.keys) or (isinstance(mv, ast.Call) and call_fname(mv) == "dict" and not mv.args and not mv.keywords)):
+        # a plain dict filled with D.setdefault(src, []).append(..): the same "list per source column"
+        for cs in fv.calls():
+            fn = cs.call.func
+            if isinstance(fn, ast.Attribute) and fn.attr == "append" and isinstance(fn.value, ast.Call) and call_fname(fn.value) == "setdefault" and isinstance(fn.value.func, ast.Attribute) \
+                    and is_name(fn.value.func.value, mname) and len(fn.value.args) == 2 and isinstance(fn.value.args[1], ast.List) and not fn.value.args[1].elts:
+                apps.append(cs)
+                key_of[id(cs)] = fn.value.args[0]
+        is_dd = bool(apps)
     ok_map = False
     detail = f"`{mname}` is built as `{show(mv)[:70]}`"
     if is_dd and len(apps) == 1:
@@ -437,7 +448,7 @@ def to_worklist(ctx) -> None:
                 and isinstance(fv.cfg.nodes[ctrl[0][0]].ast.comparators[0], ast.Constant) and fv.cfg.nodes[ctrl[0][0]].ast.comparators[0].value == "stock" \
                 and (isinstance(fv.cfg.nodes[ctrl[0][0]].ast.ops[0], ast.NotEq) == ctrl[0][1])
             arg = cs.call.args[0]
-            pair_ok = len(names) == 4 and isinstance(arg, ast.Tuple) and [getattr(e, "id", None) for e in arg.elts] == [names[0], names[3]] and is_name(cs.call.func.value.slice, names[2])
+            pair_ok = len(names) == 4 and isinstance(arg, ast.Tuple) and [getattr(e, "id", None) for e in arg.elts] == [names[0], names[3]] and is_name(key_of[id(cs)], names[2])
             ok_map = it_ok and cond_ok and pair_ok
             if not ok_map:
                 detail = "the per-source list of (target column, volumes) is not appended for every non-stock instruction"
